@@ -504,4 +504,6 @@ func Run(c *hx.Ctx) {
 	}
 	// the connection read loop below Dispatch: real connection on loopback TCP, scripted peer (rl.go)
 	rlCases(c)
+	// several frames per read through the real Dispatch with a receiver that keeps what it is handed (ctx.go)
+	ctxCases(c)
 }
